@@ -43,6 +43,7 @@ def run(R):
                      "and symbolic enum arguments; the resulting byte, a canonical polynomial over the input bits and enum-variant "
                      "indicators, must equal the oracle polynomial. This decides all 256 starting bytes x all argument values at once; "
                      "disjoint write masks give order independence.")
+    R.witnesses('W3', 'C14-witness-private-byte')
     for cfg in R.configs:
         F = R.facts(cfg)
 
